@@ -19,13 +19,13 @@ NA = {
  'C19': "the property is serde_json string escaping + BufRead::lines, both external; uuid/chrono values not Arbitrary; nothing of Harper's own left to contract",
 }
 TEXT = {
- 'C01': ("proof", "Panic-freedom and termination are PROVED (Verus, unbounded) for the engine every rule and the plain-English front-end run on: Span primitives, 7 sub-lexers + dispatcher + tiling loop, the Pattern trait contract (matches <= len) for 11 impls, run_on_chunk, find_all_matches, Wagner-Fischer rows. 3 whitespace lexers and the JSDoc inline-tag scanner are checked by bounded Kani harnesses (labelled bounded, not counted as proved). Rule bodies and external-parser front-ends are unverified.", "§3 C01"),
- 'C02': ("proof", "PlainEnglish::parse (real body) is PROVED to return tokens that tile the text exactly (in bounds, ordered, disjoint, gap-free, non-empty) for all inputs, given the sub-lexer contracts (7 proved, 7 assumed of which 6 are Kani-bounded); lexical shape proved for decades, quotes, punctuation, regexish, catch-all; number-suffix letters proved for slices of every length; Space/Newline shape bounded (Kani). Condensing passes and other front-ends unverified.", "§3 C02"),
- 'C03': ("proof", "Suggestion::apply (the real body, extracted mechanically) is PROVED equal to the mathematical splice for all (text, span, suggestion) with span inside the text; locality lemmas restate the property over that spec; run_on_chunk is proved to hand every rule a non-empty in-bounds sub-slice. That every rule's span is inside the text is NOT proved.", "§3 C03"),
- 'C08': ("model_checking", "BOUNDED model checking only (Kani/CBMC): index_to_position equals an independent reference and the position/span round trips hold for every text of length <= 3 (quick) / <= 5 (thorough) over a 6-symbol alphabet covering LF, CR, TAB, 1- and 2-unit UTF-16 characters and a combining mark. The final-line defect D4 is a known finding. Not a proof.", "§3 C08"),
+ 'C01': ("proof", "Panic-freedom and termination are PROVED (Verus, unbounded) for the engine every rule and the plain-English front-end run on: all Span methods, 7 sub-lexers + dispatcher + tiling loop, the URL scanner, the Pattern trait contract (matches <= len) for 13 impls, run_on_chunk, find_all_matches, Wagner-Fischer rows, four condensing passes, Mask::push_allowed. Whitespace lexers and the JSDoc inline-tag scanner are checked by bounded Kani harnesses; Document::parse, Markdown and the comment front-ends by bounded runtime contract checks (all labelled bounded, not counted as proved). Rule bodies and external-parser front-ends are otherwise unverified.", "§3 C01"),
+ 'C02': ("proof", "PlainEnglish::parse (real body) is PROVED to return tokens that tile the text exactly (in bounds, ordered, disjoint, gap-free, non-empty) for all inputs, given the sub-lexer contracts (7 proved, 7 assumed of which 6 are Kani-bounded); lexical shape proved for decades, quotes, punctuation, regexish, catch-all; number-suffix letters proved for slices of every length; condense_spaces / condense_dotted_initialisms / condense_number_suffixes are PROVED to preserve the tiling; Space/Newline shape bounded (Kani); the remaining passes, quote twins and Markdown token order bounded (runtime contract checks). Other front-ends unverified.", "§3 C02"),
+ 'C03': ("proof", "Suggestion::apply (the real body, extracted mechanically) is PROVED equal to the mathematical splice for all (text, span, suggestion) with span inside the text; locality lemmas restate the property over that spec; run_on_chunk is proved to hand every rule a non-empty in-bounds sub-slice. LintGroup::lint (chunk cache) is checked by a bounded runtime contract check only. That every rule's span is inside the text is NOT proved.", "§3 C03"),
+ 'C08': ("model_checking", "BOUNDED model checking only (Kani/CBMC): index_to_position equals an independent reference and the position/span round trips hold for every text of length <= 3 (quick) / <= 5 (thorough) over a 6-symbol alphabet covering LF, CR, TAB, 1- and 2-unit UTF-16 characters and a combining mark. Diagnostics, code-action lookup and TextEdit construction are checked by a bounded runtime contract check on 14 texts. The final-line defect D4 is a known finding. Not a proof.", "§3 C08"),
  'C13': ("proof", "remove_overlaps (real body, R1-desugared) is PROVED for all inputs with well-formed spans: result is a sub-list of a permutation of the input, pairwise non-overlapping, every dropped lint starts inside a kept one, non-empty input gives non-empty output. Modulo the std sort specification and the remove_indices contract, whose body is checked by exhaustive bounded execution only.", "§3 C13"),
- 'C15': ("proof", "edit_distance_min_alloc / edit_distance (real bodies) are PROVED to return the true Levenshtein distance (recursive spec function) for all strings of <= 254 chars with no overflow / out-of-bounds. Back-end agreement, merged-dictionary union and fuzzy-search completeness are unverified.", "§3 C15"),
- 'C17': ("proof", "NumberSuffix::correct_suffix_for is PROVED (Kani, loop-free, full domain) to equal the English ordinal rule for every integer 0 <= n < 2^53; from_chars/to_chars PROVED for slices of every length (Verus) and all char pairs (Kani); the lint span arithmetic (last two characters) PROVED. Lexing text->f64 and the token-merging pass are unverified.", "§3 C17"),
+ 'C15': ("proof", "edit_distance_min_alloc / edit_distance (real bodies) are PROVED to return the true Levenshtein distance (recursive spec function) for all strings of <= 254 chars with no overflow / out-of-bounds. MergedDictionary's four char-slice queries are PROVED to be the union / first-child-wins of their children. FST-vs-mutable agreement and fuzzy-search results are checked by a bounded runtime contract check only (all dictionaries of <= 3 of 9 words).", "§3 C15"),
+ 'C17': ("proof", "NumberSuffix::correct_suffix_for is PROVED (Kani, loop-free, full domain) to equal the English ordinal rule for every integer 0 <= n < 2^53; from_chars/to_chars PROVED for slices of every length (Verus) and all char pairs (Kani); the lint span arithmetic (last two characters) PROVED; the token-merging pass PROVED to keep the tokens tiling. The rule end to end (lexing, merging, lint span, suggestion, re-check) is checked by a bounded runtime contract check on 203 integers.", "§3 C17"),
 }
 NOTE = {
  'C01': "trusted: Verus/Z3/vstd, Kani/CBMC, std specs listed in contracts/trusted.py, desugarings R2; assumed: found_ok of 7 sub-lexers (6 bounded by Kani, lex_number unchecked), trait contract for the 12 Pattern impls not extracted, remove_indices contract",
@@ -60,11 +60,11 @@ m = {
    'kind_free_text': 'contract-based deductive verification: mechanical extraction of the real functions + spliced requires/ensures/invariants, discharged by Verus/Z3'},
   {'name': 'kani overlay', 'path': '/verif/kani', 'serves_properties': [p for p in sorted(PROPS) if PROPS[p].get('kani_quick')],
    'kind_free_text': 'Kani harnesses appended (cfg(kani)) to a scratch copy of /repo: complete loop-free full-domain proofs, or bounded stand-ins labelled as such'},
-  {'name': 'rac overlay', 'path': '/verif/rac', 'serves_properties': ['C13'], 'kind_free_text': 'runtime contract checks against the real code (cfg(test) overlay): counterexample search after a failed obligation; bounded stand-in for remove_indices'},
+  {'name': 'rac overlay', 'path': '/verif/rac', 'serves_properties': [p for p in sorted(PROPS) if PROPS[p].get('rac')], 'kind_free_text': 'runtime contract checks against the real code (cfg(test) overlay): counterexample search after a failed obligation; bounded stand-in for remove_indices'},
  ],
  'checks': checks,
  'not_applicable': [{'property_id': k, 'reason': v} for k, v in sorted(NA.items())],
- 'notes': 'exit 2 = undecided (anchor lost / unsupported construct / solver limit), never an alarm. Fix commits in /repo: ccc1c2a (D1 Invert), 1b8b2a1 (D2 jsdoc). Known finding: D4 (pos_conv final line), see known_findings.txt.',
+ 'notes': 'exit 2 = undecided (anchor lost / unsupported construct / solver limit / only a proof hint fails and no failing input exists within the RAC bound), never an alarm. Fix commits in /repo: ccc1c2a (D1 Invert), 1b8b2a1 (D2 jsdoc), 903b462 (D3 dotted initialisms), 70ec15d (D6 number suffix). Known finding: D4 (pos_conv final line), see known_findings.txt.',
 }
 json.dump(m, open('/verif/MANIFEST.json', 'w'), indent=1)
 print('MANIFEST.json written:', [c['property_id'] for c in checks])
